@@ -83,6 +83,8 @@ pub fn plans(tier: Tier, inst: &Inst, have_ship: bool) -> Vec<Plan> {
         Ok("m1") => rt::Model::M1,
         Ok("sc") => rt::Model::Sc,
         Ok("m2") => rt::Model::M2,
+        Ok("m3") => rt::Model::M3,
+        Ok("m3l") => rt::Model::M3L,
         _ => DEFAULT_MODEL,
     };
     // Ad-hoc deeper runs: VERIF_BOUNDS="p,s,f" overrides the tier's bounds for every instance.
